@@ -10,6 +10,8 @@
 //!   C08 ipcraw <s|f> <hex>         the same on explicit bytes                                      (search only)
 //!   C08 ocf <file> <mutation>      corrupted Avro object container file through the Avro Reader     (search only)
 //!   C08 ocfraw <hex>               the same on explicit bytes                                      (search only)
+//!   C08 avrodec <mutation>         single-object-encoded stream (C3 01 + fingerprint + body) through the push `Decoder`, two schemas (search only)
+//!   C08 flight <h|b|d|r><i>:<mutation>   corrupted FlightData header/body bytes through FlightRecordBatchStream and flight_data_to_batches
 //! Every case runs in a worker process under a watchdog and a capping allocator (c08_infra.rs).
 use std::collections::HashMap;
 use std::io::Cursor;
@@ -131,14 +133,113 @@ fn avro_batch() -> RecordBatch {
     .unwrap()
 }
 
-const N_OCF: usize = 3;
+/// a second schema: the Avro types the first one lacks (float/double, bytes, fixed, decimal,
+/// date/time/timestamp logical types, enum-like dictionary, nested record, map, uuid-free)
+fn avro_batch_rich() -> RecordBatch {
+    use arrow_array::builder::{MapBuilder, StringBuilder};
+    use arrow_array::{BinaryArray, Date32Array, Decimal128Array, FixedSizeBinaryArray, Float32Array, Float64Array, Time32MillisecondArray, TimestampMicrosecondArray};
+    let rows = 9usize;
+    let f32s: Float32Array = (0..rows).map(|i| Some(i as f32 * 0.5)).collect();
+    let f64s: Float64Array = (0..rows).map(|i| if i % 4 == 1 { None } else { Some(i as f64 * -1.25e100) }).collect();
+    let bins: BinaryArray = (0..rows).map(|i| if i % 3 == 2 { None } else { Some(vec![i as u8; i % 4]) }).collect();
+    let fixed = FixedSizeBinaryArray::try_from_iter((0..rows).map(|i| vec![i as u8; 5])).unwrap();
+    let dec = Decimal128Array::from_iter_values((0..rows).map(|i| i as i128 * 1_000_003 - 7)).with_precision_and_scale(20, 3).unwrap();
+    let d32: Date32Array = (0..rows).map(|i| Some(i as i32 * 365 - 1000)).collect();
+    let t32 = Time32MillisecondArray::from_iter_values((0..rows).map(|i| i as i32 * 1000));
+    let ts = TimestampMicrosecondArray::from_iter_values((0..rows).map(|i| i as i64 * 1_000_000_007)).with_timezone("+00:00");
+    let x: Int64Array = (0..rows).map(|i| Some(i as i64)).collect();
+    let y: StringArray = (0..rows).map(|i| if i % 2 == 0 { Some("yy") } else { None }).collect();
+    let st = StructArray::from(vec![
+        (std::sync::Arc::new(Field::new("x", DataType::Int64, true)), std::sync::Arc::new(x) as ArrayRef),
+        (std::sync::Arc::new(Field::new("y", DataType::Utf8, true)), std::sync::Arc::new(y) as ArrayRef),
+    ]);
+    let mut mb = MapBuilder::new(None, StringBuilder::new(), Int32Builder::new());
+    for i in 0..rows {
+        for j in 0..(i % 3) {
+            mb.keys().append_value(format!("k{}", j));
+            mb.values().append_value((i + j) as i32);
+        }
+        mb.append(true).unwrap();
+    }
+    RecordBatch::try_from_iter_with_nullable(vec![
+        ("f32", std::sync::Arc::new(f32s) as ArrayRef, false),
+        ("f64", std::sync::Arc::new(f64s) as ArrayRef, true),
+        ("bin", std::sync::Arc::new(bins) as ArrayRef, true),
+        ("fx", std::sync::Arc::new(fixed) as ArrayRef, false),
+        ("dec", std::sync::Arc::new(dec) as ArrayRef, false),
+        ("d", std::sync::Arc::new(d32) as ArrayRef, true),
+        ("t", std::sync::Arc::new(t32) as ArrayRef, false),
+        ("ts", std::sync::Arc::new(ts) as ArrayRef, false),
+        ("st", std::sync::Arc::new(st) as ArrayRef, false),
+        ("m", std::sync::Arc::new(mb.finish()) as ArrayRef, false),
+    ])
+    .unwrap()
+}
+
+/// hand-encoded OCF for the Avro shapes the Arrow writer does not produce: enum, a three-way
+/// union, arrays written in several blocks including a negative block count with a byte size,
+/// a map, and a default-less nested record
+fn build_ocf_handmade() -> Vec<u8> {
+    let schema = r#"{"type":"record","name":"r","fields":[{"name":"e","type":{"type":"enum","name":"c","symbols":["A","B","C"]}},{"name":"u","type":["null","int","string"]},{"name":"arr","type":{"type":"array","items":"long"}},{"name":"m","type":{"type":"map","values":"int"}},{"name":"n","type":{"type":"record","name":"n","fields":[{"name":"f","type":"float"},{"name":"b","type":"bytes"}]}}]}"#;
+    let mut f = ocf_header(schema);
+    let mut data = vec![];
+    let rows = 6i64;
+    for i in 0..rows {
+        data.extend(zz(i % 3)); // enum index
+        match i % 3 {
+            0 => data.extend(zz(0)),
+            1 => {
+                data.extend(zz(1));
+                data.extend(zz(i * 1000 - 7));
+            }
+            _ => {
+                data.extend(zz(2));
+                data.extend(zz(2));
+                data.extend(b"hi");
+            }
+        }
+        // array: one positive block, one negative-count block (with byte size), terminator
+        data.extend(zz(2));
+        data.extend(zz(i));
+        data.extend(zz(-i));
+        let items = [zz(1 << 40), zz(-1)].concat();
+        data.extend(zz(-2));
+        data.extend(zz(items.len() as i64));
+        data.extend(items);
+        data.extend(zz(0));
+        // map with one entry
+        data.extend(zz(1));
+        data.extend(zz(1));
+        data.extend(b"k");
+        data.extend(zz(i));
+        data.extend(zz(0));
+        // nested record: float + bytes
+        data.extend((i as f32).to_le_bytes());
+        data.extend(zz(3));
+        data.extend([1u8, 2, 3]);
+    }
+    f.extend(zz(rows));
+    f.extend(zz(data.len() as i64));
+    f.extend(&data);
+    f.extend(SYNC);
+    assert!(read_ocf(f.clone()).is_ok(), "hand-made OCF does not read back");
+    f
+}
+
+const N_OCF: usize = 8;
 fn build_ocf(id: usize) -> Vec<u8> {
+    if id == 7 {
+        return build_ocf_handmade();
+    }
     use arrow_avro::compression::CompressionCodec;
-    let batch = avro_batch();
+    let batch = if id == 3 { avro_batch_rich() } else { avro_batch() };
     let codec = match id {
-        0 => None,
+        0 | 3 => None,
         1 => Some(CompressionCodec::Deflate),
-        _ => Some(CompressionCodec::Snappy),
+        2 => Some(CompressionCodec::Snappy),
+        4 => Some(CompressionCodec::ZStandard),
+        5 => Some(CompressionCodec::Bzip2),
+        _ => Some(CompressionCodec::Xz),
     };
     let mut w = arrow_avro::writer::WriterBuilder::new(batch.schema().as_ref().clone())
         .with_compression(codec)
@@ -147,7 +248,10 @@ fn build_ocf(id: usize) -> Vec<u8> {
     w.write(&batch).unwrap();
     w.write(&batch.slice(2, 5)).unwrap();
     w.finish().unwrap();
-    w.into_inner()
+    let out = w.into_inner();
+    // the base file itself must read back
+    assert!(read_ocf(out.clone()).is_ok(), "base OCF {} does not read back", id);
+    out
 }
 fn ocf_file(id: usize) -> Vec<u8> {
     static FILES: std::sync::OnceLock<Vec<Vec<u8>>> = std::sync::OnceLock::new();
@@ -189,10 +293,77 @@ fn ipc_batch() -> RecordBatch {
     .unwrap()
 }
 
-const N_IPC: usize = 2;
-/// 0 = stream format, 1 = file format
+/// the layouts the first batch lacks: views (variadic buffers), dense and sparse unions, map,
+/// fixed-size list / binary, run-end encoded, decimals, large offsets, null type
+fn ipc_batch_rich() -> RecordBatch {
+    use arrow_array::builder::{FixedSizeListBuilder, LargeListBuilder, MapBuilder, StringBuilder, StringViewBuilder};
+    use arrow_array::{Decimal128Array, FixedSizeBinaryArray, LargeStringArray, NullArray, RunArray, UnionArray};
+    use arrow_buffer::ScalarBuffer;
+    use arrow_schema::{UnionFields, UnionMode};
+    let rows = 8usize;
+    let mut sv = StringViewBuilder::new();
+    for i in 0..rows {
+        if i % 3 == 1 {
+            sv.append_null();
+        } else {
+            sv.append_value(["short", "a string that is longer than twelve bytes", "", "exactly12byt", "thirteen byte"][i % 5]);
+        }
+    }
+    let ints: Int32Array = (0..rows as i32).map(Some).collect();
+    let strs: StringArray = (0..rows).map(|i| Some(["p", "qq"][i % 2])).collect();
+    let uf = UnionFields::try_new(vec![0, 1], vec![Field::new("i", DataType::Int32, true), Field::new("s", DataType::Utf8, true)]).unwrap();
+    let type_ids: ScalarBuffer<i8> = (0..rows).map(|i| (i % 2) as i8).collect();
+    let sparse = UnionArray::try_new(uf.clone(), type_ids.clone(), None, vec![std::sync::Arc::new(ints.clone()) as ArrayRef, std::sync::Arc::new(strs.clone()) as ArrayRef]).unwrap();
+    let offsets: ScalarBuffer<i32> = (0..rows).map(|i| (i / 2) as i32).collect();
+    let dense = UnionArray::try_new(uf, type_ids, Some(offsets), vec![std::sync::Arc::new(ints.slice(0, 4)) as ArrayRef, std::sync::Arc::new(strs.slice(0, 4)) as ArrayRef]).unwrap();
+    let mut mb = MapBuilder::new(None, StringBuilder::new(), Int32Builder::new());
+    for i in 0..rows {
+        for j in 0..(i % 3) {
+            mb.keys().append_value(format!("k{}", j));
+            mb.values().append_value((i + j) as i32);
+        }
+        mb.append(i % 4 != 3).unwrap();
+    }
+    let mut fsl = FixedSizeListBuilder::new(Int32Builder::new(), 2);
+    for i in 0..rows {
+        fsl.values().append_value(i as i32);
+        fsl.values().append_value(-(i as i32));
+        fsl.append(i % 5 != 2);
+    }
+    let fsb = FixedSizeBinaryArray::try_from_iter((0..rows).map(|i| vec![i as u8; 3])).unwrap();
+    let run_ends = Int32Array::from(vec![3, 5, 8]);
+    let run_vals = StringArray::from(vec![Some("r1"), None, Some("r3")]);
+    let ree = RunArray::<arrow_array::types::Int32Type>::try_new(&run_ends, &run_vals).unwrap();
+    let dec = Decimal128Array::from_iter_values((0..rows).map(|i| i as i128 * 1_000_003 - 7)).with_precision_and_scale(20, 3).unwrap();
+    let ls: LargeStringArray = (0..rows).map(|i| if i % 4 == 0 { None } else { Some("large") }).collect();
+    let mut ll = LargeListBuilder::new(Int32Builder::new());
+    for i in 0..rows {
+        for j in 0..(i % 3) {
+            ll.values().append_value((i + j) as i32);
+        }
+        ll.append(true);
+    }
+    RecordBatch::try_from_iter_with_nullable(vec![
+        ("sv", std::sync::Arc::new(sv.finish()) as ArrayRef, true),
+        ("us", std::sync::Arc::new(sparse) as ArrayRef, false),
+        ("ud", std::sync::Arc::new(dense) as ArrayRef, false),
+        ("m", std::sync::Arc::new(mb.finish()) as ArrayRef, true),
+        ("fsl", std::sync::Arc::new(fsl.finish()) as ArrayRef, true),
+        ("fsb", std::sync::Arc::new(fsb) as ArrayRef, false),
+        ("ree", std::sync::Arc::new(ree) as ArrayRef, true),
+        ("dec", std::sync::Arc::new(dec) as ArrayRef, false),
+        ("ls", std::sync::Arc::new(ls) as ArrayRef, true),
+        ("ll", std::sync::Arc::new(ll.finish()) as ArrayRef, false),
+        ("nul", std::sync::Arc::new(NullArray::new(rows)) as ArrayRef, true),
+    ])
+    .unwrap()
+}
+
+const N_IPC: usize = 4;
+/// 0 = stream format, 1 = file format; 2 / 3 = the same with the second set of types
 fn build_ipc(id: usize) -> Vec<u8> {
-    let batch = ipc_batch();
+    let batch = if id >= 2 { ipc_batch_rich() } else { ipc_batch() };
+    let id = id % 2;
     if id == 0 {
         let mut w = arrow_ipc::writer::StreamWriter::try_new(Vec::new(), &batch.schema()).unwrap();
         w.write(&batch).unwrap();
@@ -212,7 +383,91 @@ fn ipc_file(id: usize) -> Vec<u8> {
     FILES.get_or_init(|| (0..N_IPC).map(build_ipc).collect())[id % N_IPC].clone()
 }
 
+fn drain_batches<I: Iterator<Item = Result<RecordBatch, arrow_schema::ArrowError>>>(it: I) -> Result<usize, String> {
+    let mut rows = 0usize;
+    for b in it {
+        let b = b.map_err(|_| "ERR".to_string())?;
+        validate_batch(&b).map_err(|e| format!("INVALID:{}", e))?;
+        rows += b.num_rows();
+        if rows > 1_000_000 {
+            return Err("INVALID:rows-unbounded".into());
+        }
+    }
+    Ok(rows)
+}
+
+/// second entry point to the same format: the push-based `StreamDecoder`, fed in chunks
+fn read_stream_decoder(bytes: &[u8], chunk: usize) -> String {
+    let mut d = arrow_ipc::reader::StreamDecoder::new();
+    let mut rows = 0usize;
+    let mut steps = 0usize;
+    for c in bytes.chunks(chunk.max(1)) {
+        let mut b = Buffer::from(c.to_vec());
+        while !b.is_empty() {
+            steps += 1;
+            if steps > 1_000_000 {
+                return "INVALID:decoder-no-progress".into();
+            }
+            match d.decode(&mut b) {
+                Ok(Some(rb)) => {
+                    if let Err(e) = validate_batch(&rb) {
+                        return format!("INVALID:{}", e);
+                    }
+                    rows += rb.num_rows();
+                }
+                Ok(None) => {}
+                Err(_) => return "ERR".into(),
+            }
+        }
+    }
+    match d.finish() {
+        Ok(()) => format!("ok:{}", rows),
+        Err(_) => "ERR".into(),
+    }
+}
+
 fn read_ipc(kind: usize, bytes: Vec<u8>) -> String {
+    // further entry points over the same bytes: schema-only decoding, projected readers, random access
+    let _ = arrow_ipc::convert::try_schema_from_ipc_buffer(&bytes);
+    if bytes.len() > 8 {
+        let _ = arrow_ipc::convert::try_schema_from_flatbuffer_bytes(&bytes[8..]);
+    }
+    {
+        let proj = Some(vec![1usize, 3]);
+        let r: Result<usize, String> = if kind == 0 {
+            match arrow_ipc::reader::StreamReader::try_new(Cursor::new(bytes.clone()), proj) {
+                Ok(r) => drain_batches(r),
+                Err(_) => Err("ERR".into()),
+            }
+        } else {
+            match arrow_ipc::reader::FileReader::try_new(Cursor::new(bytes.clone()), proj) {
+                Ok(mut r) => {
+                    // random access to the last batch first, then the rest
+                    let n = r.num_batches();
+                    if n > 0 && r.set_index(n - 1).is_err() {
+                        Err("ERR".into())
+                    } else {
+                        drain_batches(r)
+                    }
+                }
+                Err(_) => Err("ERR".into()),
+            }
+        };
+        if let Err(e) = r {
+            if e.starts_with("INVALID") {
+                return e;
+            }
+        }
+    }
+    if kind == 0 {
+        // all three must be safe; the reader's verdict is the answer
+        for chunk in [usize::MAX, 13] {
+            let a = read_stream_decoder(&bytes, chunk.min(bytes.len().max(1)));
+            if a.starts_with("INVALID") {
+                return a;
+            }
+        }
+    }
     let mut rows = 0usize;
     let mut check = |b: Result<RecordBatch, arrow_schema::ArrowError>| -> Result<(), String> {
         let b = b.map_err(|_| "ERR".to_string())?;
@@ -297,6 +552,200 @@ fn ipcslice(body_len: usize, off: i64, len: i64, rows: usize) -> String {
     }
 }
 
+// ------------------------------------------------------------------ Avro streaming decoder (single-object encoding)
+
+const SOE_SCHEMAS: [&str; 2] = [
+    r#"{"type":"record","name":"r","fields":[{"name":"a","type":"long"},{"name":"s","type":"string"},{"name":"n","type":["null","int"]}]}"#,
+    r#"{"type":"record","name":"r","fields":[{"name":"a","type":"long"},{"name":"s","type":"string"},{"name":"n","type":["null","int"]},{"name":"x","type":{"type":"array","items":"double"}}]}"#,
+];
+
+fn soe_store() -> (arrow_avro::schema::SchemaStore, Vec<u64>) {
+    use arrow_avro::schema::{AvroSchema, Fingerprint, SchemaStore};
+    let mut store = SchemaStore::new();
+    let mut fps = vec![];
+    for s in SOE_SCHEMAS {
+        match store.register(AvroSchema::new(s.to_string())).unwrap() {
+            Fingerprint::Rabin(v) => fps.push(v),
+            _ => fps.push(0),
+        }
+    }
+    (store, fps)
+}
+
+/// six messages: four with the first schema, two with the second (a schema switch mid-stream)
+fn soe_base() -> Vec<u8> {
+    let (_, fps) = soe_store();
+    let mut out = vec![];
+    for i in 0..6i64 {
+        let which = if i >= 4 { 1 } else { 0 };
+        out.extend([0xC3, 0x01]);
+        out.extend(fps[which].to_le_bytes());
+        out.extend(zz(i * 1_000_003 - 2));
+        let s = ["a", "héllo", "", "zzzz"][i as usize % 4];
+        out.extend(zz(s.len() as i64));
+        out.extend(s.as_bytes());
+        if i % 2 == 0 {
+            out.extend(zz(0));
+        } else {
+            out.extend(zz(1));
+            out.extend(zz(i));
+        }
+        if which == 1 {
+            out.extend(zz(2));
+            out.extend(1.5f64.to_le_bytes());
+            out.extend((-2.5f64).to_le_bytes());
+            out.extend(zz(0));
+        }
+    }
+    out
+}
+
+fn read_soe(bytes: &[u8]) -> String {
+    use arrow_avro::schema::Fingerprint;
+    let mut verdicts = vec![];
+    for chunk in [usize::MAX, 5] {
+        let (store, fps) = soe_store();
+        let mut d = match arrow_avro::reader::ReaderBuilder::new()
+            .with_batch_size(3)
+            .with_writer_schema_store(store)
+            .with_active_fingerprint(Fingerprint::Rabin(fps[0]))
+            .build_decoder()
+        {
+            Ok(d) => d,
+            Err(_) => return "harness-error:decoder".into(),
+        };
+        let mut rows = 0usize;
+        let mut pending: Vec<u8> = vec![];
+        let mut verdict = String::new();
+        'outer: for c in bytes.chunks(chunk.min(bytes.len().max(1))) {
+            pending.extend_from_slice(c);
+            let mut steps = 0;
+            loop {
+                steps += 1;
+                if steps > 100_000 {
+                    return "INVALID:decoder-no-progress".into();
+                }
+                let n = match d.decode(&pending) {
+                    Ok(n) => n,
+                    Err(e) => {
+                        if std::env::var("VERIF_LOUD").is_ok() {
+                            eprintln!("avrodec error: {}", e);
+                        }
+                        verdict = "ERR".into();
+                        break 'outer;
+                    }
+                };
+                pending.drain(..n);
+                if d.batch_is_full() {
+                    match d.flush() {
+                        Ok(Some(b)) => {
+                            if let Err(e) = validate_batch(&b) {
+                                return format!("INVALID:{}", e);
+                            }
+                            rows += b.num_rows();
+                        }
+                        Ok(None) => {}
+                        Err(_) => {
+                            verdict = "ERR".into();
+                            break 'outer;
+                        }
+                    }
+                } else if n == 0 || pending.is_empty() {
+                    break;
+                }
+            }
+        }
+        if verdict.is_empty() {
+            match d.flush() {
+                Ok(Some(b)) => {
+                    if let Err(e) = validate_batch(&b) {
+                        return format!("INVALID:{}", e);
+                    }
+                    rows += b.num_rows();
+                    verdict = format!("ok:{}", rows);
+                }
+                Ok(None) => verdict = format!("ok:{}", rows),
+                Err(_) => verdict = "ERR".into(),
+            }
+        }
+        verdicts.push(verdict);
+    }
+    verdicts.join("/")
+}
+
+// ------------------------------------------------------------------ Flight
+
+fn flight_base() -> Vec<(Vec<u8>, Vec<u8>)> {
+    static F: std::sync::OnceLock<Vec<(Vec<u8>, Vec<u8>)>> = std::sync::OnceLock::new();
+    F.get_or_init(|| {
+        let batch = ipc_batch();
+        use futures::TryStreamExt;
+        let input = futures::stream::iter(vec![Ok(batch.clone()), Ok(batch.slice(1, 4))]);
+        let enc = arrow_flight::encode::FlightDataEncoderBuilder::new()
+            .with_dictionary_handling(arrow_flight::encode::DictionaryHandling::Resend)
+            .build(input);
+        let fd: Vec<arrow_flight::FlightData> = futures::executor::block_on(enc.try_collect()).unwrap();
+        fd.into_iter().map(|d| (d.data_header.to_vec(), d.data_body.to_vec())).collect()
+    })
+    .clone()
+}
+
+/// `<h|b><message index>:<mutation>` mutates the header or body bytes of one FlightData message
+fn read_flight(spec: &str) -> String {
+    use futures::TryStreamExt;
+    let mut msgs = flight_base();
+    if let Some((target, m)) = spec.split_once(':') {
+        let (part, idx) = target.split_at(1);
+        let idx = idx.parse::<usize>().unwrap_or(0) % msgs.len();
+        let other = |i: usize| {
+            let b = flight_base();
+            let (h, bd) = b[i % b.len()].clone();
+            [h, bd].concat()
+        };
+        if part == "h" {
+            msgs[idx].0 = mutate(std::mem::take(&mut msgs[idx].0), m, &other);
+        } else if part == "b" {
+            msgs[idx].1 = mutate(std::mem::take(&mut msgs[idx].1), m, &other);
+        } else if part == "d" {
+            msgs.remove(idx); // drop a message (e.g. the schema or a dictionary batch)
+        } else if part == "r" {
+            let x = msgs[idx].clone();
+            msgs.push(x); // replay a message at the end
+        }
+    }
+    let fds: Vec<arrow_flight::FlightData> = msgs
+        .into_iter()
+        .map(|(h, b)| arrow_flight::FlightData { data_header: h.into(), data_body: b.into(), ..Default::default() })
+        .collect();
+    // entry point 1: the async decoder
+    let stream = futures::stream::iter(fds.clone().into_iter().map(Ok::<_, arrow_flight::error::FlightError>));
+    let s = arrow_flight::decode::FlightRecordBatchStream::new_from_flight_data(stream);
+    let r: Result<Vec<RecordBatch>, _> = futures::executor::block_on(s.try_collect());
+    let a = match r {
+        Err(_) => "ERR".to_string(),
+        Ok(bs) => {
+            for b in &bs {
+                if let Err(e) = validate_batch(b) {
+                    return format!("INVALID:{}", e);
+                }
+            }
+            format!("ok:{}", bs.iter().map(|b| b.num_rows()).sum::<usize>())
+        }
+    };
+    // entry point 2: the synchronous helper
+    match arrow_flight::utils::flight_data_to_batches(&fds) {
+        Err(_) => format!("{}/ERR", a),
+        Ok(bs) => {
+            for b in &bs {
+                if let Err(e) = validate_batch(b) {
+                    return format!("INVALID:{}", e);
+                }
+            }
+            format!("{}/ok:{}", a, bs.iter().map(|b| b.num_rows()).sum::<usize>())
+        }
+    }
+}
+
 // ------------------------------------------------------------------ mutations
 
 /// set:<off>:<hex byte>  xor:<off>:<hex mask>  trunc:<len>  splice:<off>:<del>:<hex>
@@ -373,7 +822,7 @@ fn run_case(line: &str) -> String {
         "ipc" => {
             let id = arg(2).trim_start_matches('f').parse::<usize>().unwrap_or(0) % N_IPC;
             let spec = arg(3).to_string();
-            guarded(move || read_ipc(id, mutate(ipc_file(id), &spec, &|i| ipc_file(i % N_IPC))))
+            guarded(move || read_ipc(id % 2, mutate(ipc_file(id), &spec, &|i| ipc_file(i % N_IPC))))
         }
         "ipcraw" => {
             let kind = if arg(2) == "f" { 1 } else { 0 };
@@ -387,6 +836,14 @@ fn run_case(line: &str) -> String {
                 Ok(bs) => format!("ok:{}", bs.iter().map(|b| b.num_rows()).sum::<usize>()),
                 Err(e) => e,
             })
+        }
+        "avrodec" => {
+            let spec = arg(2).to_string();
+            guarded(move || read_soe(&mutate(soe_base(), &spec, &|_| soe_base())))
+        }
+        "flight" => {
+            let spec = arg(2).to_string();
+            guarded(move || read_flight(&spec))
         }
         "ocfraw" => {
             let b = unhex(arg(2));
@@ -524,9 +981,19 @@ fn sweep(args: &Args, rng: &mut Rng) -> Vec<(String, String, usize)> {
                 out.push((format!("C08 {} f{} {}", op, id, spec), format!("op:{} file:{}{} mut:{} nt", op, op, id, class), n));
             };
             push("xor:0:00".into(), "none", &mut out);
+            // the files added for type / codec coverage get a lighter pattern in the quick tier
+            let light = !thorough && ((op == "ipc" && id >= 2) || (op == "ocf" && id >= 3));
             for off in 0..n {
                 let vals: &[&str] = if thorough {
                     &["set:ff", "set:00", "xor:01", "xor:80", "set:7f", "xor:10"]
+                } else if light {
+                    if off % 12 == id {
+                        &["set:ff", "set:00", "xor:01"]
+                    } else if off % 3 == id % 3 {
+                        &["xor:01"]
+                    } else {
+                        &[]
+                    }
                 } else if off % 4 == id % 4 {
                     &["set:ff", "set:00", "xor:01", "xor:80"]
                 } else {
@@ -537,27 +1004,27 @@ fn sweep(args: &Args, rng: &mut Rng) -> Vec<(String, String, usize)> {
                     push(format!("{}:{}:{}", k, off, x), "byte", &mut out);
                 }
             }
-            let tstride = if thorough { 1 } else { 3 };
+            let tstride = if thorough { 1 } else if light { 11 } else { 3 };
             for len in (0..n).step_by(tstride) {
                 push(format!("trunc:{}", len), "trunc", &mut out);
             }
             if op == "ipc" {
                 // flatbuffer scalars are 4/8-byte little-endian: inflate every aligned word
                 let vs64: &[i64] = if thorough { &[-1, i64::MAX, 1 << 40, n as i64, n as i64 * 8] } else { &[-1, i64::MAX, n as i64] };
-                for off in (0..n.saturating_sub(8)).step_by(if thorough { 4 } else { 8 }) {
+                for off in (0..n.saturating_sub(8)).step_by(if thorough { 4 } else if light { 24 } else { 8 }) {
                     for v in vs64 {
                         push(format!("le64:{}:{}", off, v), "inflate-i64", &mut out);
                     }
                 }
                 let vs32: &[i64] = if thorough { &[-1, 0x7fffffff, n as i64] } else { &[-1, 0x7fffffff] };
-                for off in (0..n.saturating_sub(4)).step_by(if thorough { 4 } else { 8 }) {
+                for off in (0..n.saturating_sub(4)).step_by(if thorough { 4 } else if light { 20 } else { 8 }) {
                     for v in vs32 {
                         push(format!("le32:{}:{}", off, v), "inflate-i32", &mut out);
                     }
                 }
             } else {
                 // Avro lengths/counts are zig-zag varints: replace every byte by a huge / negative / over-long varint
-                for off in (0..n).step_by(if thorough { 1 } else { 2 }) {
+                for off in (0..n).step_by(if thorough { 1 } else if light { 5 } else { 2 }) {
                     push(format!("splice:{}:1:feffffffffffffffff01", off), "inflate-varint-i64max", &mut out);
                     push(format!("splice:{}:1:feffffff0f", off), "inflate-varint-i32max", &mut out);
                     push(format!("splice:{}:1:01", off), "negative-varint", &mut out);
@@ -576,7 +1043,109 @@ fn sweep(args: &Args, rng: &mut Rng) -> Vec<(String, String, usize)> {
             }
         }
     }
+    // Avro single-object stream through the push decoder
+    {
+        let b = soe_base();
+        let n = b.len();
+        let mut push = |spec: String, class: &str, out: &mut Vec<(String, String, usize)>| {
+            out.push((format!("C08 avrodec {}", spec), format!("op:avrodec mut:{} nt", class), n));
+        };
+        push("xor:0:00".into(), "none", &mut out);
+        for off in 0..n {
+            for v in ["set:ff", "set:00", "xor:01", "xor:80"] {
+                let (k, x) = v.split_once(':').unwrap();
+                push(format!("{}:{}:{}", k, off, x), "byte", &mut out);
+            }
+            push(format!("trunc:{}", off), "trunc", &mut out);
+            push(format!("splice:{}:1:feffffffffffffffff01", off), "inflate-varint-i64max", &mut out);
+            push(format!("splice:{}:1:01", off), "negative-varint", &mut out);
+            push(format!("splice:{}:0:ffffffffffffffffffffff", off), "insert-overlong", &mut out);
+        }
+    }
+    // Flight: header (flatbuffer message) and body bytes of every FlightData message
+    let base = flight_base();
+    let total: usize = base.iter().map(|(h, b)| h.len() + b.len()).sum();
+    for (i, (h, b)) in base.iter().enumerate() {
+        let mut push = |spec: String, class: &str, out: &mut Vec<(String, String, usize)>| {
+            out.push((format!("C08 flight {}", spec), format!("op:flight msg:{} mut:{} nt", i, class), total));
+        };
+        if i == 0 {
+            push("n0:none".into(), "none", &mut out);
+        }
+        push(format!("d{}:drop", i), "drop-message", &mut out);
+        push(format!("r{}:replay", i), "replay-message", &mut out);
+        for (part, buf) in [("h", h), ("b", b)] {
+            let n = buf.len();
+            let dense = part == "h" || thorough;
+            for off in 0..n {
+                if !dense && off % 7 != i % 7 {
+                    continue;
+                }
+                let vals: &[&str] = if thorough { &["set:ff", "set:00", "xor:01", "xor:80"] } else if off % 4 == 0 { &["set:ff", "set:00", "xor:01"] } else { &["xor:01"] };
+                for v in vals {
+                    let (k, x) = v.split_once(':').unwrap();
+                    push(format!("{}{}:{}:{}:{}", part, i, k, off, x), if part == "h" { "byte-header" } else { "byte-body" }, &mut out);
+                }
+            }
+            for len in (0..n).step_by(if thorough { 1 } else { 5 }) {
+                push(format!("{}{}:trunc:{}", part, i, len), "trunc", &mut out);
+            }
+            if part == "h" {
+                for off in (0..n.saturating_sub(8)).step_by(8) {
+                    for v in [-1i64, i64::MAX, n as i64] {
+                        push(format!("h{}:le64:{}:{}", i, off, v), "inflate-i64", &mut out);
+                    }
+                }
+                for off in (0..n.saturating_sub(4)).step_by(if thorough { 4 } else { 8 }) {
+                    for v in [-1i64, 0x7fffffff] {
+                        push(format!("h{}:le32:{}:{}", i, off, v), "inflate-i32", &mut out);
+                    }
+                }
+            }
+        }
+    }
     out
+}
+
+/// fixed block of boundary cases run in every tier
+fn dense_units() -> Vec<(String, String, usize)> {
+    let mut v = vec![];
+    for len in 1..=12usize {
+        for last in [0x00u8, 0x01, 0x02, 0x7f] {
+            for fill in [0x80u8, 0xff, 0x81] {
+                let mut b = vec![fill; len - 1];
+                b.push(last);
+                for op in ["avlq", "avlqf"] {
+                    v.push((format!("C08 {} {}", op, hex(&b)), format!("op:{} dense:len{} nt", op, len), b.len()));
+                }
+            }
+        }
+    }
+    for k in [6u32, 7, 8, 13, 14, 15, 20, 21, 22, 27, 28, 29, 31, 32, 33, 34, 35, 36, 41, 42, 43, 48, 49, 50, 55, 56, 57, 62, 63] {
+        for d in [-1i64, 0, 1] {
+            let b = uleb((1u64 << k).wrapping_add(d as u64));
+            for op in ["avlq", "avlqf"] {
+                v.push((format!("C08 {} {}", op, hex(&b)), format!("op:{} dense:pow2 nt", op), b.len()));
+            }
+        }
+    }
+    for b in [uleb(u64::MAX), uleb(u64::MAX - 1), uleb(i64::MAX as u64), uleb(i64::MAX as u64 + 1)] {
+        for op in ["avlq", "avlqf"] {
+            v.push((format!("C08 {} {}", op, hex(&b)), format!("op:{} dense:max nt", op), b.len()));
+        }
+    }
+    // IPC (offset, length) grid around the body length and the integer boundaries
+    for body in [0i64, 1, 7, 8, 9, 16, 63, 64, 65] {
+        for rows in [1i64, 2, 8, 9] {
+            let need = rows * 4;
+            for off in [0i64, 1, 4, 8, body - need, body - need + 1, body, body + 1, -1, -8, i64::MAX, i64::MIN, i64::MAX - need + 1] {
+                for len in [0i64, need - 1, need, need + 1, body - off, body.wrapping_sub(off).wrapping_add(1), -1, i64::MAX, i64::MAX.wrapping_sub(off), i64::MIN] {
+                    v.push((format!("C08 ipcslice {} {} {} {}", body, off, len, rows), "op:ipcslice dense:grid nt".to_string(), body as usize));
+                }
+            }
+        }
+    }
+    v
 }
 
 fn witnesses() -> Vec<(String, String, usize)> {
@@ -608,7 +1177,12 @@ fn main() {
         for (line, tags, n) in witnesses() {
             run_and_record(&mut w, &mut sink, line, &tags, n);
         }
-        let n = n_cases(&args, 3000, 100000);
+        if args.cases.is_none() {
+            for (line, tags, n) in dense_units() {
+                run_and_record(&mut w, &mut sink, line, &tags, n);
+            }
+        }
+        let n = n_cases(&args, 2000, 100000);
         for _ in 0..n {
             let (line, tags, len) = gen_unit(&mut rng);
             run_and_record(&mut w, &mut sink, line, &tags, len);
